@@ -47,6 +47,16 @@ CHECKS = {
    note="Trusted: TLC, JSON bridge, hook H2/H3 placement, the driver's rendering of matrix/lexicon sources. Ties are never compared. Brute force beyond 14 nodes is replaced by the per-insert recurrence (shown equivalent by MC within bounds).",
    technique="TLA+ spec Lattice (ViterbiInv/EosOptimal vs brute force) + TLC; S->I replay on the real Lattice; I->S trace validation (Trace_Lattice)",
    design="4 C02"),
+ "C04": dict(
+   category="model_checking",
+   text="DictIndex.tla states the meaning (Matches: indexed rows whose key is a prefix at the byte offset; ExactMatches) and transcribes the index builder "
+        "(ids grouped per key in first-occurrence order, records <count,ids>, record offset as trie value) and the common-prefix lookup over layered dictionaries; TLC checks "
+        "bag equality (each entry exactly once, right end/word/dictionary number, non-indexed rows never) for all layered lexicons within bounds at EVERY byte offset incl. "
+        "mid-character; each enumerated lexicon is compiled with the real DictBuilder (system + user layers), loaded, and LexiconSet::lookup / MorphemeList::lookup are compared "
+        "with TLC's sets; lookups on generated lexicons (shared prefixes, exactly 127 homographs, non-indexed rows, 1..15 layers) are trace-validated against Matches.",
+   note="Trusted: TLC, JSON bridge, yada as a library, std UTF-8. Lexicons the compiler refuses are skipped (C06). Word number = CSV row number.",
+   technique="TLA+ spec DictIndex + TLC model checking; S->I replay through real compile+load+lookup; I->S trace validation (Trace_DictIndex)",
+   design="4 C04"),
 }
 
 NOT_YET = "no check registered yet in this revision (work in progress; see DESIGN.md section 8 build order)"
